@@ -434,3 +434,305 @@ Proof.
 Qed.
 
 End LegacyChain.
+
+(* every event other than a notification of input i leaves its time stamp alone and can only lower its counter *)
+Lemma step_input_rel (CF : consts_facts) s pre e s' o i :
+  inv s pre -> live s -> step s e = (s', o) -> halted s' = false -> (forall stt, e <> Notify i stt) ->
+  forall y, getn (inputs s') i = Some y ->
+  exists x, getn (inputs s) i = Some x /\ i_lsc y = i_lsc x /\ i_cnt y <= Z.max (i_cnt x) 0.
+Proof.
+  intros I [Lb Lh] H Hh N y Gy. pose proof I as [In Ii].
+  assert (RNG : forall j x, getn (inputs s) j = Some x -> -128 <= i_cnt x <= 127).
+  { intros j x G. destruct (Ii j x G) as (_ & A & _). exact A. }
+  assert (SAME : inputs s' = inputs s -> exists x, getn (inputs s) i = Some x /\ i_lsc y = i_lsc x /\ i_cnt y <= Z.max (i_cnt x) 0).
+  { intros E. rewrite E in Gy. exists y. split; [auto|]. split; [auto|lia]. }
+  unfold step in H. destruct e; rewrite ?Lb, ?Lh in H; cbn [negb orb] in H.
+  - inversion H; subst. apply SAME; reflexivity.
+  - inversion H; subst. apply SAME. destruct (connectable s); reflexivity.
+  - inversion H; subst. apply SAME. destruct (pre_iter_fields s) as (_ & _ & _ & A & _). exact A.
+  - destruct (srv_frame_cause _ _ _ _ _ H) as ([F|(F & ch & m & HI)] & _).
+    + apply SAME. destruct F as (A & _). exact A.
+    + rewrite HI in Gy. unfold at_cfg in Gy. apply getn_map in Gy. destruct Gy as (x & Gx & ->). exists x. split; [auto|].
+      destruct (i_chan x =? ch); [|split; [auto|lia]]. destruct (sat_rel x m) as (_ & S2 & _ & S4 & _). split; [auto|]. destruct S4 as [-> | ->]; lia.
+  - assert (NE : i0 <> i) by (intros ->; apply (N stt); reflexivity).
+    rewrite (notify_other_input CF _ _ _ _ _ i H Hh NE (RNG i0)) in Gy. exists y. split; [auto|]. split; [auto|lia].
+  - apply (tick_input_rel _ _ _ _ _ _ H Hh (RNG i0) Gy).
+  - inversion H; subst. apply SAME; reflexivity.
+  - unfold ap_timer in H. destruct (cfgtmr s =? 1).
+    + destruct (exit_to s); inversion H; subst; apply SAME; reflexivity.
+    + destruct (cfgtmr s =? 2).
+      * apply restart_out in H. destruct H as [H _]. congruence.
+      * inversion H; subst. apply SAME; reflexivity.
+  - inversion H; subst. apply SAME. unfold rs_env. destruct (getn (rss s) idx); reflexivity.
+Qed.
+
+Lemma classic_notify i (e : ev) : (exists stt, e = Notify i stt) \/ (forall stt, e <> Notify i stt).
+Proof.
+  destruct e; try (right; intros; discriminate). destruct (Z.eq_dec i0 i) as [->|N]; [left; eexists; reflexivity|right; intros s E; inversion E; congruence].
+Qed.
+
+Section LegacyRun.
+Variable CF : consts_facts.
+Variables i ty fl : Z.
+
+(* input i is a (ty, fl) input that the legacy handler serves (no ActionTrigger mode) *)
+Definition leg_in (s : st) : Prop :=
+  forall x, getn (inputs s) i = Some x -> i_type x = ty /\ i_flags x = fl /\ advanced s x = false.
+Definition qall (s : st) (pre : list ev) : Prop := forall x, getn (inputs s) i = Some x -> qinv s x (changes i pre).
+
+Lemma step_qinv s pre e s' o :
+  Forall ev_ok pre -> ev_ok e -> inv s pre -> live s -> leg_in s -> leg_in s' -> qall s pre ->
+  step s e = (s', o) -> halted s' = false ->
+  qall s' (pre ++ [e]) /\
+  (forall stt t, e = Notify i stt -> In (EnterCfg t) o ->
+     exists x, getn (inputs s) i = Some x /\ toggle_enabled x = true /\ entry_chain s (changes i (pre ++ [e]))).
+Proof.
+  intros Hok He I L LI LI' Q H Hh. pose proof L as [Lb Lh].
+  destruct (step_inv_cause CF s pre e s' o Hok He I L H) as (I' & _ & _ & _). specialize (I' Hh).
+  assert (G : glob s' = glob s) by (apply (step_glob _ _ _ _ H Lb Hh)). unfold glob in G. inversion G as [[B32 BL]].
+  pose proof (cf_count CF) as HC.
+  destruct I as [In Ii]. destruct I' as [In' Ii'].
+  destruct (classic_notify i e) as [[stt ->]|N].
+  - (* notification of input i *)
+    assert (NOW : now s' = now s) by (rewrite In', In, clock_snoc; reflexivity).
+    unfold step in H. rewrite Lb, Lh in H. cbn [negb orb] in H.
+    destruct (getn (inputs s) i) as [x|] eqn:Gx.
+    2:{ unfold notify in H. rewrite Gx in H. inversion H; subst. split; [intros y Gy; congruence|intros ? ? _ []]. }
+    destruct (LI x Gx) as (_ & _ & ADV).
+    destruct (notify_qinv CF i s pre stt s' o x Hok (Build_inv _ _ In Ii) Lh Gx ADV (Q x Gx) H Hh B32 BL NOW) as [A B].
+    split; [exact A|]. intros stt' t E Ht. inversion E; subst stt'. exists x. destruct (B t Ht). auto.
+  - split; [|intros stt t E; destruct (N stt E)].
+    intros y Gy. destruct (step_input_rel CF s pre e s' o i (Build_inv _ _ In Ii) L H Hh N y Gy) as (x & Gx & R1 & R2).
+    rewrite (changes_other i pre e N).
+    destruct (LI x Gx) as (T1 & F1 & _). destruct (LI' y Gy) as (T2 & F2 & _).
+    apply (qinv_weaken s s' x y); auto; try congruence; try lia.
+    rewrite In', In, clock_snoc. destruct e; try lia. cbn in He. lia.
+Qed.
+End LegacyRun.
+
+Lemma notify_enter_not_halted s i stt s' o t :
+  notify s i stt = (s', o) -> halted s = false -> In (EnterCfg t) o -> halted s' = false.
+Proof.
+  unfold notify, legacy_change, legacy_tail, advanced_change, restart.
+  brk; intros H; inversion H; subst; intros Hh Hin; cbn in *; auto;
+  repeat match goal with
+  | K : False |- _ => destruct K
+  | K : _ \/ _ |- _ => destruct K
+  | K : Restart _ = EnterCfg _ |- _ => discriminate K
+  | E : input_start_cfg _ = _ |- _ => apply input_start_cfg_out in E; destruct E as [[? ?]|(? & ? & ? & ? & ? & ? & ? & ?)]; subst; cbn in *
+  end; auto; try congruence.
+Qed.
+
+Section LegacyTheorem.
+Variable CF : consts_facts.
+Variables i ty fl : Z.
+
+Lemma run_chain : forall p1 s pre stt p2 t,
+  Forall ev_ok pre -> Forall ev_ok (p1 ++ Notify i stt :: p2) -> inv s pre -> live s -> qall i s pre ->
+  (forall p q, p1 ++ Notify i stt :: p2 = p ++ q -> leg_in i ty fl (fst (run_from s p))) ->
+  In (EnterCfg t) (snd (step (fst (run_from s p1)) (Notify i stt))) ->
+  let s1 := fst (run_from s p1) in
+  exists x, getn (inputs s1) i = Some x /\ toggle_enabled x = true /\ entry_chain s1 (changes i (pre ++ p1 ++ [Notify i stt])).
+Proof.
+  induction p1 as [|e r IH]; intros s pre stt p2 t Hp He I L Q LR Ht; cbn [run_from fst app] in *.
+  - inversion He as [|? ? He1 He2]; subst.
+    destruct (step s (Notify i stt)) as [s' o] eqn:E. cbn [snd] in Ht.
+    assert (Hh' : halted s' = false).
+    { destruct L as [Lb Lh]. unfold step in E. rewrite Lb, Lh in E. cbn [negb orb] in E. eapply notify_enter_not_halted; eauto. }
+    assert (LI : leg_in i ty fl s) by (apply (LR [] (Notify i stt :: p2)); reflexivity).
+    assert (LI' : leg_in i ty fl s').
+    { specialize (LR [Notify i stt] p2 eq_refl). cbn [run_from] in LR. rewrite E in LR. exact LR. }
+    destruct (step_qinv CF i ty fl s pre _ s' o Hp He1 I L LI LI' Q E Hh') as [_ B].
+    apply (B stt t eq_refl Ht).
+  - inversion He as [|? ? He1 He2]; subst.
+    destruct (step s e) as [s1 o1] eqn:E. destruct (run_from s1 r) as [s2 o2] eqn:R. cbn [fst] in *.
+    assert (S2 : s2 = fst (run_from s1 r)) by (rewrite R; reflexivity).
+    destruct (halted s1) eqn:Hh.
+    { exfalso. rewrite run_from_dead in R; [|right; destruct (step_inv_cause CF s pre e s1 o1 Hp He1 I L E) as (_ & B & _); exact B|right; auto].
+      inversion R as [[Es Eo]]. rewrite <- Es in Ht. unfold step in Ht. rewrite Hh, orb_true_r in Ht. destruct Ht. }
+    destruct (step_inv_cause CF s pre e s1 o1 Hp He1 I L E) as (I1 & B1 & _). specialize (I1 Hh).
+    assert (LI : leg_in i ty fl s) by (apply (LR [] (e :: r ++ Notify i stt :: p2)); reflexivity).
+    assert (LI' : leg_in i ty fl s1).
+    { specialize (LR [e] (r ++ Notify i stt :: p2) eq_refl). cbn [run_from] in LR. rewrite E in LR. exact LR. }
+    destruct (step_qinv CF i ty fl s pre e s1 o1 Hp He1 I L LI LI' Q E Hh) as [Q1 _].
+    assert (Hp1 : Forall ev_ok (pre ++ [e])) by (apply Forall_app; split; auto).
+    assert (LR1 : forall p q, r ++ Notify i stt :: p2 = p ++ q -> leg_in i ty fl (fst (run_from s1 p))).
+    { intros p q Epq. specialize (LR (e :: p) q). cbn [app run_from] in LR. rewrite E in LR.
+      destruct (run_from s1 p) as [sa oa]. cbn [fst] in *. apply LR. rewrite Epq. reflexivity. }
+    rewrite S2 in Ht.
+    specialize (IH s1 (pre ++ [e]) stt p2 t Hp1 He2 I1 (conj B1 Hh) Q1 LR1 Ht).
+    rewrite <- S2 in IH. rewrite <- app_assoc in IH. exact IH.
+Qed.
+End LegacyTheorem.
+
+(* ------------------------------------------------------------------------------------------------ *)
+(* true time: without a pause of a full counter period inside the chain, the links are quick in real microseconds *)
+Fixpoint quick (c : list Z) : Prop :=
+  match c with
+  | t :: ((tp :: _) as rest) => (tp <= t /\ t - tp < CHAIN_WINDOW_US) /\ quick rest
+  | _ => True
+  end.
+Lemma subseq_In a : forall b x, subseq a b -> In x a -> In x b.
+Proof.
+  induction a as [|y a IH]; intros b x H Hx; [destruct Hx|]. induction b as [|z b IHb]; [destruct H|].
+  cbn in H. destruct H as [[E H]|H].
+  - destruct Hx as [<-|Hx]; [left; auto|right; eapply IH; eauto].
+  - right. apply IHb; auto.
+Qed.
+Lemma linked_quick b32 l c :
+  linked b32 l c ->
+  (forall t r, In t c -> refok b32 l r -> r <= t -> t - r < 4294967296) ->
+  quick c.
+Proof.
+  induction c as [|t c IH]; [auto|]. destruct c as [|tp rest]; [auto|]. intros [(r & R1 & R2 & R3 & R4) H] HP.
+  split; [|apply IH; [exact H|intros t' r' Hin; apply HP; right; auto]].
+  split; [auto|]. specialize (HP t r (or_introl eq_refl) R1 ltac:(lia)).
+  rewrite u32_small in R4 by lia. lia.
+Qed.
+Lemma last_cons_default (l : list Z) : forall a d, last (a :: l) d = last l a.
+Proof.
+  induction l as [|b l IH]; intros a d; [reflexivity|].
+  change (last (a :: b :: l) d) with (last (b :: l) d). rewrite (IH b d), (IH b a). reflexivity.
+Qed.
+Lemma quick_span c : forall t, quick (t :: c) -> t - last c t <= len c * (CHAIN_WINDOW_US - 1) /\ last c t <= t.
+Proof.
+  induction c as [|tp rest IH]; intros t H; [cbn; lia|].
+  destruct H as [[H1 H2] H]. destruct (IH tp H) as [A B]. rewrite len_cons.
+  rewrite last_cons_default.
+  pose proof (len_nonneg rest). nia.
+Qed.
+
+(* ------------------------------------------------------------------------------------------------ *)
+(* the theorems *)
+Lemma boot_qall b32 bl fc ins rs s0 o0 i : boot b32 bl fc ins rs = (s0, o0) -> qall i s0 [].
+Proof.
+  intros EB. pose proof (cf_count consts_ok) as HC.
+  assert (FLD : boot32 s0 = u32 b32 /\ now s0 = 0 /\ forall y, In y (inputs s0) -> i_lsc y = 0 /\ i_cnt y = 0).
+  { unfold boot in EB.
+    match type of EB with context [if incomplete ?b then let '(s1, o) := cfgmode_start ?S in _ else _] => set (sb := S) in * end.
+    assert (A : boot32 sb = u32 b32 /\ now sb = 0 /\ forall y, In y (inputs sb) -> i_lsc y = 0 /\ i_cnt y = 0).
+    { split; [reflexivity|]. split; [reflexivity|]. intros y Hy. cbn [inputs sb] in Hy. apply in_map_iff in Hy. destruct Hy as (x & <- & _).
+      destruct (i_at x <? 0); [split; reflexivity|].
+      match goal with |- context [set_active_triggers ?X ?M] => destruct (sat_rel X M) as (_ & S2 & _ & S4 & _); destruct (sat_fields X M) as (_ & S5 & _) end.
+      split; [rewrite S2; reflexivity|apply S5; reflexivity]. }
+    destruct (incomplete _).
+    - destruct (cfgmode_start sb) as [s1 o] eqn:EC. inversion EB; subst.
+      destruct (cfgmode_start_out _ _ _ EC) as [[_ ->]|(_ & _ & C & D & E & _)]; [exact A|].
+      destruct A as (A1 & A2 & A3). rewrite C, D, E. auto.
+    - inversion EB; subst. exact A. }
+  destruct FLD as (F1 & F2 & F3). intros x G.
+  assert (Hin : In x (inputs s0)).
+  { unfold getn in G. destruct (i <? 0); [discriminate|]. eapply nth_error_In; eauto. }
+  destruct (F3 x Hin) as [L C].
+  exists (- boot32 s0), []. rewrite L, C, F2. pose proof (u32_range b32).
+  split; [replace (boot32 s0 + - boot32 s0) with 0 by lia; reflexivity|]. split; [left; reflexivity|]. split; [lia|].
+  split; [cbn; lia|]. split; [exact Logic.I|]. split; [exact Logic.I|]. split; [exact Logic.I|].
+  split; [intros _ _; cbn; lia|]. split; [lia|lia].
+Qed.
+
+(* (b) in time, legacy handler: a toggle entry exhibits PRESS_COUNT state changes of that input, the last one now, each
+   within CHAIN_WINDOW_US — in the 32-bit arithmetic of the device — of a reference (counter zero, or a change of that
+   input to "active") that is not later than the previous one *)
+Lemma toggle_entry_chain_thm : code_shape -> forall b32 bl fc ins rs pre stt post t i ty fl,
+  Forall ev_ok (pre ++ Notify i stt :: post) ->
+  (forall p q, pre ++ Notify i stt :: post = p ++ q -> leg_in i ty fl (fst (run_from init (Boot b32 bl fc ins rs :: p)))) ->
+  let s1 := fst (run_from init (Boot b32 bl fc ins rs :: pre)) in
+  In (EnterCfg t) (snd (step s1 (Notify i stt))) ->
+  exists x, getn (inputs s1) i = Some x /\ toggle_enabled x = true /\ entry_chain s1 (changes i (pre ++ [Notify i stt])).
+Proof.
+  intros _ b32 bl fc ins rs pre stt post t i ty fl Hok LR. cbv zeta. rewrite run_boot.
+  destruct (boot b32 bl fc ins rs) as [s0 o0] eqn:EB. destruct (boot_inv _ _ _ _ _ _ _ EB) as (I0 & L0 & _ & _).
+  pose proof (boot_qall _ _ _ _ _ _ _ i EB) as Q0.
+  assert (LR0 : forall p q, pre ++ Notify i stt :: post = p ++ q -> leg_in i ty fl (fst (run_from s0 p))).
+  { intros p q E. specialize (LR p q E). rewrite run_boot, EB in LR. destruct (run_from s0 p). exact LR. }
+  destruct (run_from s0 pre) as [s1 o1] eqn:ER. cbn [fst]. intros Ht.
+  pose proof (run_chain consts_ok i ty fl pre s0 [] stt post t (Forall_nil _) Hok I0 L0 Q0 LR0) as K.
+  rewrite ER in K. cbn [fst app] in K. apply K. exact Ht.
+Qed.
+
+(* ... and in true time when no change of the chain comes a full period (2^32 us) or more after a reference *)
+Lemma toggle_entry_true_time_thm : code_shape -> forall b32 bl fc ins rs pre stt post t i ty fl,
+  Forall ev_ok (pre ++ Notify i stt :: post) ->
+  (forall p q, pre ++ Notify i stt :: post = p ++ q -> leg_in i ty fl (fst (run_from init (Boot b32 bl fc ins rs :: p)))) ->
+  let s1 := fst (run_from init (Boot b32 bl fc ins rs :: pre)) in
+  let l := changes i (pre ++ [Notify i stt]) in
+  In (EnterCfg t) (snd (step s1 (Notify i stt))) ->
+  (forall tc st r, In (tc, st) l -> refok (boot32 s1) l r -> r <= tc -> tc - r < 4294967296) ->
+  exists chain, PRESS_COUNT <= len chain /\ hd 0 chain = now s1 /\ subseq chain (map fst l) /\ quick chain /\
+                now s1 - last chain 0 <= (len chain - 1) * (CHAIN_WINDOW_US - 1).
+Proof.
+  intros CS b32 bl fc ins rs pre stt post t i ty fl Hok LR s1 l Ht HP.
+  destruct (toggle_entry_chain_thm CS b32 bl fc ins rs pre stt post t i ty fl Hok LR Ht) as (x & _ & _ & chain & C1 & C2 & C3 & C4).
+  fold s1 l in C1, C2, C3, C4. exists chain.
+  assert (Q : quick chain).
+  { apply (linked_quick (boot32 s1) l); [exact C4|]. intros tc r Hin R Hle.
+    pose proof (subseq_In _ _ _ C3 Hin) as Hm. apply in_map_iff in Hm. destruct Hm as ([tc' st] & E & Hl). cbn in E. subst tc'.
+    apply (HP tc st r Hl R Hle). }
+  split; [auto|]. split; [auto|]. split; [auto|]. split; [auto|].
+  destruct chain as [|t0 rest]; [pose proof (cf_count consts_ok); cbn in C1; lia|]. cbn [hd] in C2. subst t0.
+  destruct (quick_span rest (now s1) Q) as [A _]. rewrite len_cons.
+  rewrite last_cons_default.
+  lia.
+Qed.
+
+(* ------------------------------------------------------------------------------------------------ *)
+(* checking the run hypotheses of the theorems on concrete runs (for the Examples) *)
+Definition leg_inb (i ty fl : Z) (s : st) : bool :=
+  match getn (inputs s) i with
+  | Some x => (i_type x =? ty) && (i_flags x =? fl) && negb (advanced s x)
+  | None => true
+  end.
+Lemma leg_inb_ok i ty fl s : leg_inb i ty fl s = true -> leg_in i ty fl s.
+Proof.
+  unfold leg_inb, leg_in. intros H x G. rewrite G in H. apply andb_true_iff in H. destruct H as [H H3].
+  apply andb_true_iff in H. destruct H as [H1 H2]. apply Z.eqb_eq in H1, H2. apply negb_true_iff in H3. auto.
+Qed.
+Fixpoint prefixes {A} (l : list A) : list (list A) :=
+  match l with [] => [[]] | a :: r => [] :: map (cons a) (prefixes r) end.
+Lemma prefixes_In {A} (p q : list A) : In p (prefixes (p ++ q)).
+Proof.
+  induction p as [|a p IH]; cbn; [destruct q; left; reflexivity|]. right. apply in_map. exact IH.
+Qed.
+Lemma leg_run_check i ty fl b evs :
+  forallb (fun p => leg_inb i ty fl (fst (run_from init (b :: p)))) (prefixes evs) = true ->
+  forall p q, evs = p ++ q -> leg_in i ty fl (fst (run_from init (b :: p))).
+Proof.
+  intros H p q E. apply leg_inb_ok. rewrite forallb_forall in H. apply H. rewrite E. apply prefixes_In.
+Qed.
+Definition ev_okb (e : ev) : bool := match e with Time dt => 0 <=? dt | Srv c p => negb (chcfg_unmodelled c p) | _ => true end.
+Lemma ev_okb_ok evs : forallb ev_okb evs = true -> Forall ev_ok evs.
+Proof.
+  intros H. apply Forall_forall. intros e He. rewrite forallb_forall in H. specialize (H e He). destruct e; cbn in *; auto.
+  - apply negb_true_iff in H. exact H. - apply Z.leb_le. exact H.
+Qed.
+
+(* ten toggles 300 ms apart on a bistable configuration button: all hypotheses of both theorems hold *)
+Definition w_quick_pre : list ev :=
+  [Time 500000] ++ concat (map (fun k => [Notify 0 (Z.of_nat (S k) mod 2); Time 300000]) (seq 0 9)).
+Lemma chain_nonvacuous_thm :
+  let b := w_boot TYPE_BISTABLE FLAG_CFG_BTN in
+  let s1 := fst (run_from init (b :: w_quick_pre)) in
+  let l := changes 0 (w_quick_pre ++ [Notify 0 0]) in
+  Forall ev_ok (w_quick_pre ++ Notify 0 0 :: []) /\
+  (forall p q, w_quick_pre ++ Notify 0 0 :: [] = p ++ q -> leg_in 0 TYPE_BISTABLE FLAG_CFG_BTN (fst (run_from init (b :: p)))) /\
+  In (EnterCfg (now s1)) (snd (step s1 (Notify 0 0))) /\
+  (forall tc st r, In (tc, st) l -> refok (boot32 s1) l r -> r <= tc -> tc - r < 4294967296) /\
+  map fst l = map (fun k => 500000 + 300000 * Z.of_nat k) (rev (seq 0 10)).
+Proof.
+  cbv zeta. split; [apply ev_okb_ok; vm_compute; reflexivity|]. split; [apply leg_run_check; vm_compute; reflexivity|].
+  split; [vm_compute; left; reflexivity|]. split; [|vm_compute; reflexivity].
+  assert (EL : changes 0 (w_quick_pre ++ [Notify 0 0]) =
+               map (fun k => (500000 + 300000 * Z.of_nat k, Z.of_nat (S k) mod 2)) (rev (seq 0 10))) by (vm_compute; reflexivity).
+  assert (EB : boot32 (fst (run_from init (w_boot TYPE_BISTABLE FLAG_CFG_BTN :: w_quick_pre))) = 1) by (vm_compute; reflexivity).
+  rewrite EL, EB. intros tc st r Hin R Hle.
+  assert (T : 500000 <= tc <= 3200000).
+  { apply in_map_iff in Hin. destruct Hin as (k & E & Hk). inversion E; subst. apply in_rev in Hk. apply in_seq in Hk. lia. }
+  destruct R as [->|R]; [lia|]. apply in_map_iff in R. destruct R as (k & E & Hk). inversion E; subst. apply in_rev in Hk. apply in_seq in Hk. lia.
+Qed.
+
+(* the wrap witness of Proofs.toggle_chain_u32_wrap_refuted_thm: its ten changes are 2^32 us apart, so the hypothesis of the
+   true-time theorem fails and so does its conclusion (no two changes are less than CHAIN_WINDOW_US apart) *)
+Lemma wrap_witness_changes_thm :
+  map fst (changes 0 (firstn 20 w_wrap_toggles)) = map (fun k => 500000 + 4294967296 * Z.of_nat k) (rev (seq 0 10)) /\
+  4294967296 > CHAIN_WINDOW_US.
+Proof. split; vm_compute; reflexivity. Qed.
